@@ -20,7 +20,7 @@ ASSUMPTIONS = ["labels: non-negative ints for SQLite, ints or strings for the pi
                "bulk add_edges never repeats an edge (plain INSERT)", "a user who never commits a no_commit insert is outside the property",
                "spatial queries compared on 3 drawn (location, radius) pairs per case"]
 TOLERANCES = {"answers": "exact equality"}
-BUDGET = {"quick": {"shards": 8, "examples": 250}, "thorough": {"shards": 16, "examples": 4000}}
+BUDGET = {"quick": {"shards": 8, "examples": 600}, "thorough": {"shards": 16, "examples": 4000}}
 
 
 def _tmp():
